@@ -3,8 +3,10 @@ package db
 import (
 	"crypto/x509/pkix"
 	"encoding/asn1"
+	"time"
 
 	"github.com/wokdav/gopki/generator/config"
+	v1 "github.com/wokdav/gopki/generator/config/v1"
 )
 
 // vhRejectStopsRun: C09 last sentence, at the planner. One entity with a
@@ -73,4 +75,42 @@ func vhRejectStopsRun() {
 		vAssert(len(list) == 0, "a change list was returned together with a validation failure")
 	}
 	vAssert(len(d.log) == 0, "planning modified the database")
+}
+
+// vhPlanInheritsValidity: C04 / C08 at the planner: the effective
+// configuration the planner hands to generation is the merged one whatever
+// else the profile contains - a certificate without validity block under a
+// profile with a validity and with zero, one optional or one mandatory
+// extension gets the profile's validity (and the mandatory extension).
+func vhPlanInheritsValidity() {
+	d := &vDB{}
+	prof := config.CertificateProfile{Name: "p", Validity: config.CertificateValidity{From: time.Unix(1700000000, 0), Until: time.Unix(1800000000, 0), IsSet: true, IsStatic: true}}
+	nExt := 0
+	switch vChoose("profileExtensions", 3) {
+	case 1:
+		prof.Extensions = []config.ProfileExtension{{ExtensionConfig: v1.SubjectKeyIdentifier{Content: "hash"}, ExtensionProfile: config.ExtensionProfile{Optional: true}}}
+	case 2:
+		prof.Extensions = []config.ProfileExtension{{ExtensionConfig: v1.SubjectKeyIdentifier{Content: "hash"}}}
+		nExt = 1
+	}
+	d.AddProfile(prof)
+	cfg := &config.CertificateContent{Alias: "e", Profile: "p", Subject: vSubject("e")}
+	if vChoose("ownValidity", 2) == 1 {
+		cfg.Validity = config.CertificateValidity{From: time.Unix(1600000000, 0), Until: time.Unix(1650000000, 0), IsSet: true, IsStatic: true}
+	}
+	d.ents = append(d.ents, &vEnt{alias: "e", cfg: cfg, meta: &Metadata{}, art: &BuildArtifact{}, parent: -1})
+	list, err := PlanBulkUpdate(d, UpdateMissing)
+	vAssert(err == nil && len(list) == 1, "planning a missing certificate failed")
+	if err != nil || len(list) != 1 {
+		return
+	}
+	vReach("planned")
+	eff := list[0].EffectiveConfig
+	want := prof.Validity
+	if cfg.Validity.IsSet {
+		want = cfg.Validity
+	}
+	vAssert(eff.Validity.From.Equal(want.From) && eff.Validity.Until.Equal(want.Until) && eff.Validity.IsStatic == want.IsStatic && eff.Validity.IsSet,
+		"the effective configuration of a planned certificate does not carry its own validity, or its profile's when it has none")
+	vAssert(len(eff.Extensions) == nExt, "the effective configuration of a planned certificate does not carry the profile's mandatory extension")
 }
